@@ -10,6 +10,7 @@ import shutil
 import signal
 import subprocess
 import sys
+import threading
 import time
 
 VERIF = os.path.dirname(os.path.dirname(os.path.abspath(__file__)))
@@ -40,6 +41,10 @@ ASAN_OPTIONS = ("abort_on_error=1:detect_leaks=1:allocator_may_return_null=1:"
                 "max_allocation_size_mb=3072:detect_stack_use_after_return=1:"
                 "strict_string_checks=1:handle_abort=0")
 UBSAN_OPTIONS = "print_stacktrace=1:abort_on_error=1:halt_on_error=1"
+
+
+_LOCKS = {}
+_LOCKS_GUARD = threading.Lock()
 
 
 def sha(*parts):
@@ -242,6 +247,13 @@ class Ctx:
         d = os.path.join(BUILD, key[:2], key)
         exe = os.path.join(d, "a.out")
         okf, failf, logf = os.path.join(d, "ok"), os.path.join(d, "fail"), os.path.join(d, "log")
+        # identical jobs (same source and flags, e.g. shards that differ only in their arguments) share one build
+        with _LOCKS_GUARD:
+            lock = _LOCKS.setdefault(key, threading.Lock())
+        with lock:
+            return self._compile_locked(name, text, flavour, flags, syntax_only, cuda_shim, libs, d, exe, okf, failf, logf)
+
+    def _compile_locked(self, name, text, flavour, flags, syntax_only, cuda_shim, libs, d, exe, okf, failf, logf):
         if os.path.exists(okf):
             return Build(name, True, exe, "", flavour, True, 0.0)
         if os.path.exists(failf):
@@ -249,11 +261,15 @@ class Ctx:
                 return Build(name, False, None, fh.read(), flavour, True, 0.0)
         os.makedirs(d, exist_ok=True)
         srcp = os.path.join(d, "src.cpp")
-        with open(srcp, "w") as fh:
-            fh.write(text)
+        if not os.path.exists(srcp):
+            tmps = "%s.%d.%d" % (srcp, os.getpid(), threading.get_ident())
+            with open(tmps, "w") as fh:
+                fh.write(text)
+            os.replace(tmps, srcp)
+        tmpexe = "%s.tmp.%d.%d" % (exe, os.getpid(), threading.get_ident())   # another process may build the same key
         cmd = [CXX] + flags + self.includes(cuda_shim) + [srcp]
         if not syntax_only:
-            cmd += ["-o", exe + ".tmp"] + list(libs) + ["-lpthread"]
+            cmd += ["-o", tmpexe] + list(libs) + ["-lpthread"]
         t = time.time()
         try:
             p = subprocess.run(cmd, capture_output=True, text=True, timeout=3600)
@@ -265,7 +281,7 @@ class Ctx:
             fh.write(log)
         if rc == 0:
             if not syntax_only:
-                os.replace(exe + ".tmp", exe)
+                os.replace(tmpexe, exe)
             open(okf, "w").close()
             return Build(name, True, exe, log, flavour, False, secs)
         if rc == 124 or "internal compiler error" in log or "Killed" in log or "cannot allocate" in log.lower():
